@@ -18,13 +18,9 @@ const (
 	HzBaseTypePrefixName = "basetype-prefix-name" // type names like stringList, i32Thing, optionalFoo (no word boundary in the grammar)
 	HzUnderscoreEdge     = "underscore-edge"      // _foo, a__b, c_  (snakeToCamel index out of range)
 	HzEnumNonMonotonic   = "enum-nonmonotonic"    // explicit enum values that decrease or are negative
-	HzConstEnumIdent     = "const-enum-ident"     // const E x = E.B  (rejected: "Include E not found")
 	HzKeywordArg         = "keyword-arg"          // argument/field names that are target keywords or generated identifiers
 	HzContainerKey       = "container-key"        // binary / container / struct typed set elements and map keys
-	HzDupThrows          = "dup-throws"           // the same exception type twice in one throws list
-	HzTypedefEnum        = "typedef-enum"         // typedef of an enum used as a return/field type
 	HzInclTypedefChain   = "included-typedef-chain"
-	HzOneLetterVar       = "one-letter-prefix-var"
 	HzTypedefStruct      = "typedef-struct" // a typedef of a struct/union/exception used as a type (Go output does not compile)
 )
 
@@ -261,10 +257,6 @@ func (b *builder) genType(label string, depth int, key bool, allowKinds map[stri
 				b.c.Excluded[HzTypedefStruct]++
 				continue
 			}
-			if a.kind == "typedef" && a.und == "enum" && !b.c.Hazards[HzTypedefEnum] {
-				b.c.Excluded[HzTypedefEnum]++
-				continue
-			}
 			if a.kind == "typedef" && a.file != b.fi && !b.c.Hazards[HzInclTypedefChain] {
 				// an included typedef whose target is itself a typedef/declaration of the included file
 				d := b.p.Decl(a.file, a.name)
@@ -342,7 +334,7 @@ func (b *builder) genValue(label string, ty *Type, depth int, forConst bool) *Va
 			if e == nil {
 				return nil
 			}
-			k := fmt.Sprintf("%+v", *e)
+			k := valueKey(e)
 			if r.Kind == "set" && seen[k] {
 				continue
 			}
@@ -363,7 +355,7 @@ func (b *builder) genValue(label string, ty *Type, depth int, forConst bool) *Va
 			if k == nil || e == nil {
 				return nil
 			}
-			ks := fmt.Sprintf("%+v", *k)
+			ks := valueKey(k)
 			if seen[ks] {
 				continue
 			}
@@ -378,8 +370,9 @@ func (b *builder) genValue(label string, ty *Type, depth int, forConst bool) *Va
 		}
 		ev := d.EnumValues[rapid.IntRange(0, len(d.EnumValues)-1).Draw(t, label+".ev")]
 		if forConst {
-			// top-level constants referring to an enum value by name are rejected by the compiler
-			if !b.c.hz(t, HzConstEnumIdent, 2) {
+			// by number or by name (constants naming an enum value were rejected before the
+			// validateConstant fix, see known_findings.json)
+			if rapid.Bool().Draw(t, label+".bynumber") {
 				return &Value{Kind: "int", I: int64(ev.Value)}
 			}
 		}
@@ -397,9 +390,19 @@ func (b *builder) genValue(label string, ty *Type, depth int, forConst bool) *Va
 			}
 			name = b.p.Files[r.File].Name + "." + name
 		}
-		return &Value{Kind: "ident", Ident: name}
+		// I carries the numeric value so that container keys can be compared (it is not rendered)
+		return &Value{Kind: "ident", Ident: name, I: int64(ev.Value)}
 	}
 	return nil
+}
+
+// valueKey identifies a constant value semantically: an enum value named by
+// identifier and the same value written as an integer are one key.
+func valueKey(v *Value) string {
+	if v.Kind == "ident" || v.Kind == "int" {
+		return fmt.Sprintf("n:%d", v.I)
+	}
+	return fmt.Sprintf("%+v", *v)
 }
 
 func (b *builder) lookup(r *Type) *Decl {
@@ -689,15 +692,19 @@ func (b *builder) genDecls() {
 					id := 0
 					for k := 0; k < ne; k++ {
 						a := excs[rapid.IntRange(0, len(excs)-1).Draw(t, "exc")]
-						key := fmt.Sprint(a.file, a.name)
-						if used[key] {
-							if !c.Hazards[HzDupThrows] {
-								c.Excluded[HzDupThrows]++
-								continue
+						// (the same exception type may be declared twice; ids in any order, with gaps)
+						if rapid.IntRange(0, 3).Draw(t, "excid.any") == 0 {
+							id = rapid.IntRange(1, 9).Draw(t, "excid.free")
+							for used[fmt.Sprint(id)] {
+								id++
+							}
+						} else {
+							id += rapid.IntRange(1, 2).Draw(t, "excid")
+							for used[fmt.Sprint(id)] {
+								id++
 							}
 						}
-						used[key] = true
-						id += rapid.IntRange(1, 2).Draw(t, "excid")
+						used[fmt.Sprint(id)] = true
 						m.Throws = append(m.Throws, Field{ID: id, Name: c.genName(t, en, "excname", []string{"lower", "camel"}), Type: &Type{Kind: "ref", Name: a.name, File: a.file}})
 					}
 				}
@@ -772,10 +779,7 @@ func (c *Cfg) GenPrefix(t *rapid.T) []PrefixTok {
 	vn := newNamer()
 	for i := 0; i < n; i++ {
 		if rapid.Bool().Draw(t, "pvar?") {
-			v := rapid.SampledFrom([]string{"user", "tenant", "region", "id", "u2", "acct", "env"}).Draw(t, "pvar")
-			if c.hz(t, HzOneLetterVar, 15) {
-				v = "u"
-			}
+			v := rapid.SampledFrom([]string{"user", "tenant", "region", "id", "u2", "acct", "env", "u", "X"}).Draw(t, "pvar")
 			if !vn.take(v) {
 				continue
 			}
